@@ -27,8 +27,22 @@ def showEntry : CP → String
 def showEntries (l : List CP) : String :=
   if l.isEmpty then "_" else ",".intercalate (l.map showEntry)
 
-def parseOp (s : String) : Option Op :=
+/-- driver-level operations: the proved core `Op`s plus `update` / `difference_update`
+(iterable or string argument, through `iter_code_points(reverse=True)`) -/
+inductive DOp where
+  | core (op : Op) | upd (o : List CP) | dupd (o : List CP)
+
+def dstep (l : List CP) : DOp → List CP
+  | .core op => step l op
+  | .upd o => update l o
+  | .dupd o => differenceUpdate l o
+
+def parseOp (s : String) : Option DOp :=
   match s.trimAscii.toString.splitOn " " with
+  | ["upd", e] => (parseEntries e).map .upd
+  | ["dupd", e] => (parseEntries e).map .dupd
+  | other => (parseCore other).map .core
+where parseCore : List String → Option Op
   | ["add", e] => (parseEntry e).map .add
   | ["disc", e] => (parseEntry e).map .discard
   | ["ior", e] => (parseEntries e).map .ior
@@ -37,7 +51,14 @@ def parseOp (s : String) : Option Op :=
   | ["ixor", e] => (parseEntries e).map .ixor
   | _ => none
 
-def opSafe (l : List CP) : Op → Bool
+def foldSafe (l : List CP) (vs : List CP) : Bool :=
+  (vs.foldl (fun (acc : List CP × Bool) v => (add v acc.1, acc.2 && addSafe v acc.1)) (l, true)).2
+
+def opSafe (l : List CP) : DOp → Bool
+  | .upd o => foldSafe l (iterCodePoints true o)
+  | .dupd _ => true
+  | .core op => coreSafe op
+where coreSafe : Op → Bool
   | .add v => addSafe v l
   | .ior o => (o.reverse.foldl (fun (acc : List CP × Bool) v => (add v acc.1, acc.2 && addSafe v acc.1)) (l, true)).2
   | .ixor o => ((iter o).foldl (fun (acc : List CP × Bool) n =>
@@ -45,7 +66,10 @@ def opSafe (l : List CP) : Op → Bool
       else (add (.one n) acc.1, acc.2 && addSafe (.one n) acc.1)) (l, true)).2
   | _ => true
 
-def argsValid : Op → Bool
+def argsValid : DOp → Bool
+  | .upd o | .dupd o => o.all CP.validArg
+  | .core op => coreValid op
+where coreValid : Op → Bool
   | .add v => v.validArg
   | .discard v => v.validArg
   | .ior o | .isub o | .iand o | .ixor o => o.all CP.validArg
@@ -63,10 +87,14 @@ def answer (line : String) : String :=
         if !(ops.all argsValid) then "bad-arg" else
         let bits0 := (List.range len).map fun i => decide (memL (base + i) init)
         let shift (o : List CP) : List CP := o   -- entries are absolute
-        let specStepW (S : List Bool) (op : Op) : List Bool :=
+        let specStepW (S : List Bool) (dop : DOp) : List Bool :=
           (List.range len).map fun i =>
             let x := base + i
             let sx := S.getD i false
+            match dop with
+            | .upd o => sx || decide (memL x o)
+            | .dupd o => sx && !decide (memL x o)
+            | .core op =>
             match op with
             | .add v => sx || decide (v.mem x)
             | .discard v => sx && !decide (v.mem x)
@@ -79,7 +107,7 @@ def answer (line : String) : String :=
         let (_, _, _, outs, lfin) := ops.foldl (fun (st : List CP × List Bool × Bool × List String × List CP) op =>
             let (l, S, safe, outs, _) := st
             let safe' := (if decide (Canon l) then true else safe) && opSafe l op
-            let l' := step l op
+            let l' := dstep l op
             let S' := specStepW S op
             (l', S', safe', outs ++ [show1 l' S' safe'], l')) (init, bits0, true, [show1 init bits0 true], init)
         let c := match complement lfin with
